@@ -52,15 +52,45 @@ LmStep(n, k) ==     \* the landmark n + k for k = 1 / -1, if it is a named landm
   ELSE UNDEF
 \* mantissa bits needed to hold a whole landmark exactly
 LmBits == [i16max |-> 15, i16maxp |-> 1, u16max |-> 16, u16maxp |-> 1, i32max |-> 31, i32maxp |-> 1, u32max |-> 32, u32maxp |-> 1, f64int |-> 1, f64intp |-> 54,
-           i64max |-> 63, i64maxp |-> 1, u64max |-> 64, u64maxp |-> 1, u64maxpp |-> 65, i16minm |-> 16, i16min |-> 1, i32minm |-> 32, i32min |-> 1, i64minm |-> 64, i64min |-> 1]
+           i64max |-> 63, i64maxp |-> 1, u64max |-> 64, u64maxp |-> 1, u64maxpp |-> 65, i16minm |-> 16, i16min |-> 1, i32minm |-> 32, i32min |-> 1, i64minm |-> 64, i64min |-> 1,
+           f32max |-> 24, mf32max |-> 24, f32maxp |-> 1, mf32maxp |-> 1, f64max |-> 53, mf64max |-> 53, f64maxp |-> 1, mf64maxp |-> 1]
 NeedBits(v) == IF v.st = "k" /\ v.ty.k = "number" /\ Has(v.v, "lm") /\ v.v.lm \in DOMAIN LmBits THEN LmBits[v.v.lm] ELSE 24
 IsUnit(n) == Has(n, "q") /\ n.q \in {4, -4}
 BigLm(n) == Has(n, "lm") /\ ~IsSmallN(n)
+\* exact facts about named constants: negation (2^15 / -2^15, ...) and doubling (2^15 * 2 = 2^16, ...)
+LmNegT == [i16maxp |-> "i16min", i32maxp |-> "i32min", i64maxp |-> "i64min", f32max |-> "mf32max", f32maxp |-> "mf32maxp",
+           f64max |-> "mf64max", f64maxp |-> "mf64maxp"]
+LmDblT == [i16maxp |-> "u16maxp", i32maxp |-> "u32maxp", i64maxp |-> "u64maxp"]
+Inv(T, v) == CHOOSE m \in DOMAIN T : T[m] = v
+LmNegOf(n) == IF n.lm \in DOMAIN LmNegT THEN OKV(NumK([lm |-> LmNegT[n.lm]]))
+              ELSE IF \E m \in DOMAIN LmNegT : LmNegT[m] = n.lm THEN OKV(NumK([lm |-> Inv(LmNegT, n.lm)]))
+              ELSE UNDEF
+LmAbsOf(n) == IF Landmarks[n.lm].r > 0 THEN OKV(NumK(n)) ELSE LmNegOf(n)
+\* a big landmark x scaled by a small whole factor k in {-1, 0, 1, 2} (multiplication) ...
+LmTimes(x, k) ==
+  CASE k = 4 -> OKV(NumK(x))
+    [] k = -4 -> LmNegOf(x)
+    [] k = 0 -> OKV(NumK(Qn(0)))
+    [] k = 8 -> IF x.lm \in DOMAIN LmDblT THEN OKV(NumK([lm |-> LmDblT[x.lm]])) ELSE UNDEF
+    [] OTHER -> UNDEF
+\* ... and divided by k in {-1, 1, 2}
+LmOver(x, k) ==
+  CASE k = 4 -> OKV(NumK(x))
+    [] k = -4 -> LmNegOf(x)
+    [] k = 8 -> IF \E m \in DOMAIN LmDblT : LmDblT[m] = x.lm THEN OKV(NumK([lm |-> Inv(LmDblT, x.lm)])) ELSE UNDEF
+    [] OTHER -> UNDEF
+LmFactors == {Qn(4), Qn(-4), Qn(0), Qn(8)}
+LmScaled == DOMAIN LmNegT \cup {LmNegT[m] : m \in DOMAIN LmNegT} \cup DOMAIN LmDblT \cup {LmDblT[m] : m \in DOMAIN LmDblT} \cup {"i64max", "u64max", "f64intp", "i64minm"}
 RefArith(op, x, y) ==     \* x, y number payloads
   IF ~(HasRank(x) /\ HasRank(y)) THEN UNDEF
   ELSE IF op = "Add" /\ BigLm(x) /\ IsUnit(y) THEN LmStep(x, y.q \div 4)
   ELSE IF op = "Add" /\ BigLm(y) /\ IsUnit(x) THEN LmStep(y, x.q \div 4)
   ELSE IF op = "Subtract" /\ BigLm(x) /\ IsUnit(y) THEN LmStep(x, -(y.q \div 4))
+  ELSE IF op = "Subtract" /\ BigLm(x) /\ x = y THEN OKV(NumK(Qn(0)))
+  ELSE IF op = "Divide" /\ BigLm(x) /\ x = y THEN OKV(NumK(Qn(4)))
+  ELSE IF op = "Multiply" /\ BigLm(x) /\ Has(y, "q") THEN LmTimes(x, y.q)
+  ELSE IF op = "Multiply" /\ BigLm(y) /\ Has(x, "q") THEN LmTimes(y, x.q)
+  ELSE IF op = "Divide" /\ BigLm(x) /\ Has(y, "q") /\ y.q # 0 THEN LmOver(x, y.q)
   ELSE IF IsInfN(x) \/ IsInfN(y) THEN
     CASE op = "Add" -> IF IsInfN(x) /\ IsInfN(y) THEN (IF x = y THEN OKV(NumK(x)) ELSE UNDEF)
                        ELSE OKV(NumK(IF IsInfN(x) THEN x ELSE y))
@@ -108,11 +138,13 @@ Ref(op, a, x) ==
     [] op = "Negate" ->
          IF ~IsNumK(a[1]) THEN (IF a[1].ty.k = "number" THEN UNDEF ELSE REJ)
          ELSE IF IsInfN(a[1].v) THEN OKV(NumK([inf |-> -a[1].v.inf]))
-         ELSE IF FinSmall(a[1].v) THEN OKV(NumK(Rat(-Nm(a[1].v), Dn(a[1].v)))) ELSE UNDEF
+         ELSE IF FinSmall(a[1].v) THEN OKV(NumK(Rat(-Nm(a[1].v), Dn(a[1].v))))
+         ELSE IF BigLm(a[1].v) THEN LmNegOf(a[1].v) ELSE UNDEF
     [] op = "Absolute" ->
          IF ~IsNumK(a[1]) THEN (IF a[1].ty.k = "number" THEN UNDEF ELSE REJ)
          ELSE IF IsInfN(a[1].v) THEN OKV(NumK(PInf))
-         ELSE IF FinSmall(a[1].v) THEN OKV(NumK(Rat(AbsI(Nm(a[1].v)), Dn(a[1].v)))) ELSE UNDEF
+         ELSE IF FinSmall(a[1].v) THEN OKV(NumK(Rat(AbsI(Nm(a[1].v)), Dn(a[1].v))))
+         ELSE IF BigLm(a[1].v) THEN LmAbsOf(a[1].v) ELSE UNDEF
     [] op = "Not" -> IF IsBoolK(a[1]) THEN OKV(BoolV(~BoolOf(a[1]))) ELSE IF a[1].ty.k = "bool" THEN UNDEF ELSE REJ
     [] op \in BoolBin ->
          IF IsBoolK(a[1]) /\ IsBoolK(a[2])
@@ -166,6 +198,8 @@ ResRanked(r) == r.ok => Ranked(r.val)
 AllWhollyKnown(s) == \A i \in 1..Len(s) : WhollyKnown(s[i])
 NoMarksIn(s) == \A i \in 1..Len(s) : MarksIn(s[i]) = {}
 
+\* every operand reports the same after the call(s) as before (ia / ia2: digests of the operands' full projections)
+InputsChanged(e) == IF Has(e, "ia") /\ e.ia # e.ia2 THEN {"C20.Immutable"} ELSE {}
 \* --- C02 / C06 / C20 on a single call with wholly known operands
 CallPremise(e) == AllRanked(e.a)
 CallFailed(e) ==
@@ -180,10 +214,12 @@ CallFailed(e) ==
   \cup (IF Has(ref, "undef") \/ ~ref.ok \/ ~Has(e, "rp") THEN {}
         ELSE IF \E i \in 1..Len(e.rp) : e.rp[i].mp >= NeedBits(ref.val) /\ (~e.rp[i].r.ok \/ (~NumUnranked(e.rp[i].r.val) /\ ~Match(e.rp[i].r.val, ref.val)))
              THEN {"C02.ResultIsRefAllReps"} ELSE {})
-  \cup (IF Len(e.rs) = 1 THEN {} ELSE {"C20.Pure"})
+  \* (x.dup: a constructor given two spellings of one key - which entry survives follows Go map order; not judged)
+  \cup (IF Len(e.rs) = 1 \/ Has(e.x, "dup") THEN {} ELSE {"C20.Pure"})
+  \cup InputsChanged(e)
   \* (arithmetic on whole numbers near 2^53 / 2^63 / 2^64 is exact only "to within the precision of the operands": there the
   \*  result legitimately depends on the mantissa precision of the representation; judged by C02.ResultIsRefAllReps instead)
-  \cup (IF Len(e.rr) = 1 \/ (e.api \in NumBinArith /\ \E i \in 1..Len(e.a) : IsNumK(e.a[i]) /\ BigLm(e.a[i].v)) THEN {} ELSE {"C20.RepInvariant"})
+  \cup (IF Len(e.rr) = 1 \/ Has(e.x, "dup") \/ (e.api \in NumBinArith /\ \E i \in 1..Len(e.a) : IsNumK(e.a[i]) /\ BigLm(e.a[i].v)) THEN {} ELSE {"C20.RepInvariant"})
   \cup (IF e.r.ok /\ ~WellFormedR(e.r) THEN {"C06.WellFormed"} ELSE {})
   \* results computed from every physical representation of the operands (non-normalized input strings, other precisions) are well-formed too
   \cup (IF \E i \in 1..Len(e.rr) : e.rr[i].ok /\ ~WellFormedR(e.rr[i]) THEN {"C06.WellFormed"} ELSE {})
@@ -200,7 +236,7 @@ WeakPremise(e) ==
   /\ (ResRanked(e.ra) \/ (e.rb.ok /\ ~HasNumBounds(e.rb.val)))    \* an order is needed only against numeric bounds
   /\ \A i \in 1..Len(e.a) : Admits(e.b[i], e.a[i])
 WeakFailed(e, P) ==
-  (IF Has(e, "rbs") /\ Len(e.rbs) # 1 THEN {"C20.Pure"} ELSE {}) \cup
+  (IF Has(e, "rbs") /\ Len(e.rbs) # 1 THEN {"C20.Pure"} ELSE {}) \cup InputsChanged(e) \cup
   IF ~e.ra.ok THEN {}       \* failing concrete calls are outside the quantifier
   ELSE IF ~e.rb.ok THEN {P \o ".NoNewFailure"}
   ELSE (IF Admits(e.rb.val, e.ra.val) THEN {} ELSE {P \o ".ResultAdmits"})
@@ -214,6 +250,10 @@ MarkPremise(e) == Len(e.a) = Len(e.b) /\ StripAll(e.a) = e.b
 UnionMarks(s) == UNION {MarksIn(s[i]) : i \in 1..Len(s)}
 UnionTopMarks(s) == UNION {TopMarks(s[i]) : i \in 1..Len(s)}
 MarkFailed(e) ==
+  InputsChanged(e) \cup
+  \* a marked operand re-read after the call carries, at every position, the marks it carried before: otherwise whatever is
+  \* computed from it next carries a mark that no input carried
+  (IF Has(e, "a2") /\ e.a2 # e.a THEN {"C04.NoInventionOnReuse"} ELSE {}) \cup
   IF e.ra.ok # e.rb.ok THEN {"C04.SameOutcome"}
   ELSE IF ~e.ra.ok THEN {}
   ELSE (IF UnmarkDeep(e.ra.val) = UnmarkDeep(e.rb.val) THEN {} ELSE {"C04.SameValue"})
@@ -249,7 +289,11 @@ ArgTuples(op) ==
   CASE op \in NumBin -> {<<x, y>> : x \in NumK1, y \in NumK1}
                         \cup (IF op \in {"Add", "Subtract"} THEN {<<NumK([lm |-> n]), u>> : n \in DOMAIN LmNext \cup {LmNext[m] : m \in DOMAIN LmNext}, u \in {NumV(4), NumV(-4)}}
                                                                   \cup {<<u, NumK([lm |-> n])>> : n \in DOMAIN LmNext, u \in {NumV(4), NumV(-4)}} ELSE {})
-    [] op \in NumUn -> {<<x>> : x \in NumK1}
+                        \* big landmarks scaled by -1, 0, 1, 2 in both operand orders, divided by -1, 1, 2 and by themselves, minus themselves
+                        \cup (IF op = "Multiply" THEN {<<NumK([lm |-> n]), K(TNum, u)>> : n \in LmScaled, u \in LmFactors} \cup {<<K(TNum, u), NumK([lm |-> n])>> : n \in LmScaled, u \in LmFactors} ELSE {})
+                        \cup (IF op = "Divide" THEN {<<NumK([lm |-> n]), K(TNum, u)>> : n \in LmScaled, u \in LmFactors \ {Qn(0)}} ELSE {})
+                        \cup (IF op \in {"Divide", "Subtract"} THEN {<<NumK([lm |-> n]), NumK([lm |-> n])>> : n \in LmScaled} ELSE {})
+    [] op \in NumUn -> {<<x>> : x \in NumK1} \cup {<<NumK([lm |-> n])>> : n \in LmScaled}
     [] op \in BoolBin -> {<<x, y>> : x \in BoolK1, y \in BoolK1}
     [] op \in BoolUn -> {<<x>> : x \in BoolK1}
     [] op \in {"Index", "HasIndex"} ->
